@@ -266,6 +266,7 @@ GROUPS = {
     "expressions:dispatch": c06.g_transform_dispatch, "expressions:generic-copy": c06.g_transform_generic,
     "placement:interrupts": c05.g_interrupts, "placement:stars": c13.g_tuple_list, "placement:star-import": c14.g_import_from,
     "canary": c13.g_canary,
+    "compiler_validation": lambda R, tier: __import__("suites.c10", fromlist=["g_default_options"]).g_default_options(R, tier),
 }
 
 UNSUPPORTED_SRC = {
@@ -322,3 +323,4 @@ REPLAY.update(c05.REPLAY)
 REPLAY.update(c06.REPLAY)
 REPLAY.update(c14.REPLAY)
 REPLAY.update({"unsupported": replay_unsupported, "field": replay_field})
+REPLAY.update({k: v for k, v in __import__("suites.c10", fromlist=["REPLAY"]).REPLAY.items() if k not in REPLAY})
